@@ -147,13 +147,6 @@ def parseSig (s : List UInt8) : String :=
     | .err => "field"
     | .panic => "panic"
 
-/-- lexicographic `<` on byte strings (`[u8]::cmp`, which is also `str::cmp`) -/
-def bytesLt : List UInt8 → List UInt8 → Bool
-  | [], [] => false
-  | [], _ :: _ => true
-  | _ :: _, [] => false
-  | a :: as, b :: bs => a < b || (a == b && bytesLt as bs)
-
 def prec? : Sexp → Option (Option Nat)
   | .atom "none" => some none
   | s => s.nat?.map some
